@@ -37,7 +37,48 @@ pub fn call_name(c: &Call) -> String {
 }
 
 /// document: the rich document plus an image with [/ASCII85Decode /FlateDecode] (object 50) and an object stream
+pub const DEEP_LEN: u64 = 70;
+pub const DEEP_FIRST: u64 = 100;
+
+/// variant 2: a small document with a chain of DEEP_LEN page-tree nodes linked through /Parent (every typed load of a
+/// node loads all nodes above it, one inside the other), so that how deep a load nests depends on what is cached
+fn deep_doc() -> Vec<u8> {
+    let mut fb = FileBuilder::new(b"");
+    fb.add(1, 0, &Val::dict(vec![("Type", Val::name("Catalog")), ("Pages", Val::r(2))]));
+    fb.add(2, 0, &Val::dict(vec![("Type", Val::name("Pages")), ("Kids", Val::Array(vec![Val::r(3)])), ("Count", Val::Int(1)), ("MediaBox", Val::ints(&[0, 0, 9, 9]))]));
+    fb.add(3, 0, &Val::dict(vec![("Type", Val::name("Page")), ("Parent", Val::r(2)), ("Resources", Val::dict(vec![]))]));
+    for i in 0..DEEP_LEN {
+        let mut d = vec![("Type", Val::name("Pages")), ("Kids", Val::Array(vec![])), ("Count", Val::Int(0)), ("Level", Val::Int(i as i64))];
+        if i > 0 {
+            d.push(("Parent", Val::r(DEEP_FIRST + i - 1)));
+        }
+        fb.add(DEEP_FIRST + i, 0, &Val::dict(d));
+    }
+    fb.finish_table(&[("Root", Val::r(1))], Split::Runs);
+    fb.bytes()
+}
+
+pub fn alphabet_deep() -> Vec<Call> {
+    let mut a: Vec<Call> = vec![];
+    let mut ns: Vec<u64> = (0..DEEP_LEN).step_by(8).map(|i| DEEP_FIRST + i).collect();
+    for n in [DEEP_FIRST + DEEP_LEN - 1, DEEP_FIRST + 31, DEEP_FIRST + 32, DEEP_FIRST + 33] {
+        if !ns.contains(&n) {
+            ns.push(n);
+        }
+    }
+    ns.sort();
+    for n in ns {
+        a.push((Kind::GetPagesNode, n));
+        a.push((Kind::Resolve, n));
+    }
+    a.push((Kind::GetPage, 0));
+    a
+}
+
 pub fn c12_doc(variant: usize) -> Vec<u8> {
+    if variant == 2 {
+        return deep_doc();
+    }
     let mut objs = rich_objects();
     let img: Vec<u8> = vec![10, 20, 30, 40, 50, 60, 70, 80, 90, 100, 110, 120];
     objs.push((
@@ -93,6 +134,9 @@ pub fn alphabet(variant: usize) -> Vec<Call> {
 /// read other objects through the same caches, so a wrongly typed load of any object may matter to any later call
 pub fn alphabet_wide(variant: usize) -> Vec<Call> {
     use Kind::*;
+    if variant == 2 {
+        return alphabet_deep();
+    }
     let mut a: Vec<Call> = vec![];
     let mut objs: Vec<u64> = (1..=38).collect();
     objs.push(50);
@@ -444,6 +488,41 @@ pub fn run(tier: Tier, _seed: u64, tally: &mut Tally) -> CheckMeta {
             tally.merge(p);
         }
     }
+    // deep chain: all sequences of length <= 2 under every configuration, length 3 under the two full cache configurations
+    let n_deep;
+    {
+        let bytes = c12_doc(2);
+        let alpha = alphabet_deep();
+        n_deep = alpha.len();
+        let reference: std::collections::HashMap<Call, String> = alpha.iter().map(|c| (*c, run_sequence(&bytes, 4, &[*c]).pop().unwrap())).collect();
+        for (c, a) in &reference {
+            if a.starts_with("ERR:") {
+                tally.notes.push(format!("deep chain: {} alone answers {}", call_name(c), a));
+            }
+        }
+        let n = alpha.len();
+        let parts: Vec<Tally> = (0..n)
+            .into_par_iter()
+            .map(|i| {
+                let mut t = Tally::new();
+                for cfg in 0..CONFIGS.len() {
+                    check_seq(&bytes, &reference, 2, cfg, &[alpha[i]], &mut t);
+                    for j in 0..n {
+                        check_seq(&bytes, &reference, 2, cfg, &[alpha[i], alpha[j]], &mut t);
+                        if cfg == 0 || cfg == 3 || tier.thorough() {
+                            for k in 0..n {
+                                check_seq(&bytes, &reference, 2, cfg, &[alpha[i], alpha[j], alpha[k]], &mut t);
+                            }
+                        }
+                    }
+                }
+                t
+            })
+            .collect();
+        for p in parts {
+            tally.merge(p);
+        }
+    }
     // corpus: the complete walk of every repository file (pages, resources, fonts, images, operators, trees, every object by number)
     // must give the same observations with and without caches, in strict and in tolerant mode, walked twice on one open document
     let n_corpus = corpus_walks(tally);
@@ -455,7 +534,7 @@ pub fn run(tier: Tier, _seed: u64, tally: &mut Tally) -> CheckMeta {
     CheckMeta {
         prop: "C12",
         level: "model_checking",
-        rule: format!("call alphabet of {} (kind, object) pairs on two generated documents (classic; xref stream + object stream) containing pages, fonts, a Flate image with predictor, a hex+run-length mask, an [ASCII85 Flate] image, a form and content streams: kinds resolve, get::<PagesNode|Font|XObject|Stream|ObjectStream>, Stream::data, raw_image_data, image_data, get_page (incl. type-mismatching and out-of-range calls). Exhaustive: all sequences of length <= 2 under 5 cache configurations {{SyncCache both, object only, stream only, own map-backed caches, none}}, all sequences of length 3 under {}, every ordering (all permutations) of the distinct calls per object, and all ordered pairs over a wide alphabet of {} calls (resolve and get::<PagesNode|Font|XObject|Stream|Primitive|Dictionary|i32> on every object of the document incl. an integer and a reference-only object, page look-ups) under all 5 configurations; plus the complete walk of {} repository files cached vs uncached (strict and tolerant). Each answer is compared with the same call made alone on a fresh uncached document (canonical digest / root-cause error variant).", total_alpha, if tier.thorough() { "every configuration" } else { "both-caches and own-map-caches" }, total_wide, n_corpus),
+        rule: format!("call alphabet of {} (kind, object) pairs on two generated documents (classic; xref stream + object stream) containing pages, fonts, a Flate image with predictor, a hex+run-length mask, an [ASCII85 Flate] image, a form and content streams: kinds resolve, get::<PagesNode|Font|XObject|Stream|ObjectStream>, Stream::data, raw_image_data, image_data, get_page (incl. type-mismatching and out-of-range calls). Exhaustive: all sequences of length <= 2 under 5 cache configurations {{SyncCache both, object only, stream only, own map-backed caches, none}}, all sequences of length 3 under {}, every ordering (all permutations) of the distinct calls per object, and all ordered pairs over a wide alphabet of {} calls (resolve and get::<PagesNode|Font|XObject|Stream|Primitive|Dictionary|i32> on every object of the document incl. an integer and a reference-only object, page look-ups) under all 5 configurations; a third document with a chain of 70 page-tree nodes nested through /Parent and {} calls (typed load and resolve of every 8th node, of nodes 31-33 and of the last): all sequences of length <= 2 under every configuration and of length 3 under the two full cache configurations; plus the complete walk of {} repository files cached vs uncached (strict and tolerant). Each answer is compared with the same call made alone on a fresh uncached document (canonical digest / root-cause error variant).", total_alpha, if tier.thorough() { "every configuration" } else { "both-caches and own-map-caches" }, total_wide, n_deep, n_corpus),
         assumptions: vec!["digests are independent of HashMap iteration order and file offsets".into()],
         exhaustive: true,
         bounds: json!({"sequence_len": maxlen}),
